@@ -33,7 +33,12 @@ func (reg *ResourceRegistry) ScanStorage(root string) error {
 		if err != nil {
 			return err
 		}
-		if !strings.HasPrefix(root, reg.storageDir.Path) {
+		// A plain prefix check would also accept sibling directories like "<storage>-old".
+		storagePrefix := reg.storageDir.Path
+		if !strings.HasSuffix(storagePrefix, string(filepath.Separator)) {
+			storagePrefix += string(filepath.Separator)
+		}
+		if root != reg.storageDir.Path && !strings.HasPrefix(root, storagePrefix) {
 			return errors.New("supplied scan root path not within storage")
 		}
 	}
